@@ -50,6 +50,11 @@ Block(p) ==
     ELSE IF p.shape = 2
     THEN SerSeq(Run(0, p.lit), p.off1, p.m1)
          \o SerSeq(Run(p.lit, p.lit2), p.off, p.m) \o SerLast(Run(p.lit + p.lit2, p.fin))
+    ELSE IF p.shape = 4
+    THEN \* a match straddling dictionary and block, then a positioned sequence, then the tail
+         SerSeq(Run(0, p.lit0), p.lit0 + p.k, p.m0)
+         \o SerSeq(Run(p.lit0, p.lit), p.off, p.m)
+         \o SerLast(Run(p.lit0 + p.lit, p.tail))
     ELSE \* positioned: pad | sequence of interest | tail
          SerSeq(Run(0, p.lit), p.off, p.m)
          \o (IF p.tailkind = "lits" THEN SerLast(Run(p.lit, p.tail))
@@ -76,6 +81,8 @@ Level1 ==
             c' = [shape |-> sh, dl |-> dl, lit |-> lit]
        \/ Mode \in {"pos", "all"} /\ \E lit \in PosLits, m \in PosMatches :
             c' = [shape |-> 3, dl |-> 0, lit |-> lit, m |-> m]
+       \/ Mode \in {"pos", "all"} /\ \E lit \in {1, 8, 14}, m \in {4, 10, 18}, dl \in {7, 64} :
+            c' = [shape |-> 4, dl |-> dl, lit |-> lit, m |-> m]
 
 Level2 ==
     /\ phase = 1
@@ -97,6 +104,11 @@ Level2 ==
                /\ (tk = "none" => t = 0)
                /\ c' = [shape |-> 3, dl |-> 0, lit |-> c.lit, off |-> off, m |-> c.m,
                         tailkind |-> tk, tail |-> t, dd |-> dd]
+       \/ /\ c.shape = 4
+          /\ \E lit0 \in {1, 3}, k \in {1, 5}, m0 \in {8, 20, 40}, off \in {1, 4, 8, 12}, t \in PosTails, dd \in {0, 0 - 1, 0 - 5, 7} :
+               /\ k <= c.dl
+               /\ c' = [shape |-> 4, dl |-> c.dl, lit0 |-> lit0, k |-> k, m0 |-> m0, lit |-> c.lit, off |-> off, m |-> c.m,
+                        tail |-> t, dd |-> dd]
 
 Next == Level1 \/ Level2
 
